@@ -172,7 +172,7 @@ class World(object):
         tr = self.env.tr
         d = {}
         for k, v in vars(tr).items():
-            if k in ('tape_cassette', '_random', '_thread_locals', '_classes_recording_params') or isinstance(v, threading.local) or type(v).__name__ == 'Random':
+            if k in ('tape_cassette', '_random', '_thread_locals', '_classes_recording_params') or isinstance(v, threading.local) or hasattr(v, 'getrandbits') or hasattr(v, 'create_new_recording'):
                 continue
             d[k] = ('recording', getattr(v, 'id', None)) if hasattr(v, 'get_all_keys') else P.canon(v)
         d['flag-main'] = getattr(tr, '_currently_in_interception', None)
